@@ -3,6 +3,9 @@
 From Coq Require Import ZArith List Bool.
 Import ListNotations.
 From Verif Require Import Base.PyValue Model.Eval Model.Params Proofs.ParamsProofs.
+(* translator tie: required here, imported where the source theorems start (coqdep reads Requires reliably only
+   in the header, see harness/PYMINI.md) *)
+From Verif Require Model.PyMini Model.PrimsApi Gen.SrcParams Proofs.SrcParams.
 Open Scope Z_scope.
 
 (* For every history of parse / execute(parsed) / execute(text) / executemany on one
@@ -58,7 +61,7 @@ Example C09_fold_example :
 Proof. reflexivity. Qed.
 
 From Coq Require Import String.
-From Verif Require Import Model.PyMini Model.PrimsApi Gen.SrcParams Proofs.SrcParams.
+Import Verif.Model.PyMini Verif.Model.PrimsApi Verif.Gen.SrcParams Verif.Proofs.SrcParams.
 Open Scope list_scope.
 
 (* ---- Tie by translation (re-checked on every run against the CURRENT source of beanquery/compiler.py and
@@ -159,6 +162,19 @@ Theorem C09_source_connection_parse_compile : forall (call_ref : nat -> list pv 
     PyMini.bind (do_call call_ref (PRef kF) [PSelf; q]) (fun r => Ok (flds, r)).
 Proof. exact (fun cr ms kP kF flds q HP HF => conj (connection_parse_src cr ms kP flds q HP) (connection_compile_src cr ms kF flds q HF)). Qed.
 Print Assumptions C09_source_connection_parse_compile.
+
+(* Connection.__init__ (its leading `self.<attr> = ...` statements): a new connection's tables / options / errors are
+   containers built inside __init__ from displays and a NullTable() call of its own, on an object that had no
+   attributes: nothing class-level or module-level is stored, so two connections share no mutable object through
+   them (a change that stores a shared container changes the generated term and this no longer checks). *)
+Theorem C09_source_connection_init : forall (call_ref : nat -> list pv -> pv) (msg : string -> list pv -> pv)
+    (kN : nat) (dsn : pv),
+  ref_of refs "beanquery.tables.NullTable" = Some kN ->
+  call_method call_ref (prim_api params_lib msg) connection_init_state [] [dsn] =
+  PyMini.bind (do_call call_ref (PRef kN) []) (fun nt =>
+  Ok ([("tables", pdict [(PV (VStr []), nt)]); ("options", pdict []); ("errors", PList [])]%string, PNone)).
+Proof. exact connection_init_src. Qed.
+Print Assumptions C09_source_connection_init.
 
 (* Non-vacuity: `SELECT %s + x WHERE y = %s` (placeholders at positions 20 and 7 in walk order 20, 7) with two
    parameters: the translated compile numbers them by position and the translated _placeholder binds the one at
